@@ -407,6 +407,57 @@ def contents_diff(a, b):
     return out
 
 
+def stated_vs_loaded(ctx, names, pkg_data, dumps):
+    """what each data FILE states for a group (read with a plain YAML parser over the include closure, no package code) must
+    be what the loaded library holds: a reference enthalpy / entropy / heat-capacity table / range written in the file — a
+    zero included — is present after loading"""
+    import yaml
+    for nm in names:
+        d = dumps['name']['libs'].get(nm, {})
+        if 'error' in d or 'groups' not in d:
+            continue
+        stated = {}
+        todo, seen = [os.path.join(pkg_data, nm, 'library.yaml')], set()
+        while todo:
+            f = todo.pop()
+            if f in seen or not os.path.isfile(f):
+                continue
+            seen.add(f)
+            try:
+                doc = yaml.safe_load(open(f, encoding='utf-8')) or {}
+            except Exception:
+                continue
+            for inc in doc.get('include') or []:
+                todo.append(os.path.join(os.path.dirname(f), str(inc)))
+            for sect in ('groups', 'other_descriptors'):
+                for g, ps in (doc.get(sect) or {}).items():
+                    th = (ps or {}).get('thermochem') if isinstance(ps, dict) else None
+                    if isinstance(th, dict):
+                        st = stated.setdefault(str(g), set())
+                        for key, what in (('H_ref', 'H'), ('ND_H_ref', 'H'), ('S_ref', 'S'), ('ND_S_ref', 'S'), ('Cp_data', 'cp'),
+                                          ('ND_Cp_data', 'cp'), ('range', 'range')):
+                            if th.get(key) is not None and th.get(key) != []:
+                                st.add(what)
+        import pgradd.GroupAdd.Group as GM
+        loaded = d['groups']
+        for g, st in stated.items():
+            try:
+                cn = GM.Group.parse(None, g).name if '(' in g else g
+            except Exception:
+                cn = g
+            have = loaded.get(cn, loaded.get(g))
+            ctx.count('stated_entries')
+            ctx.case(('stated', nm, g), None)
+            if have is None:
+                continue
+            got = {w for w, ok in (('H', have.get('H') is not None), ('S', have.get('S') is not None), ('cp', bool(have.get('cp'))),
+                                   ('range', have.get('range') is not None)) if ok}
+            lost = sorted(st - got)
+            if lost:
+                ctx.violation('a value the data file states for a group is absent from the loaded library', {'library': nm, 'group': g, 'stated': sorted(st)},
+                              sorted(st), sorted(got))
+
+
 def run(ctx):
     import pgradd
     names = libs.lib_names()
@@ -420,6 +471,7 @@ def run(ctx):
     specs = way_specs(ctx, pkg_data, names, tag)
     dumps = run_ways(ctx, specs, names, list(specs))
     reloc = specs['reloc']['env']['pgradd_DATA_DIR']
+    stated_vs_loaded(ctx, names, pkg_data, dumps)
     for w in specs:
         if w.startswith('reloc') and dumps[w]['data_dir'] is not None and os.path.realpath(dumps[w]['data_dir']) != os.path.realpath(reloc):
             ctx.violation('the data-directory override is not honoured', {'pgradd_DATA_DIR': reloc, 'way': w}, reloc, dumps[w]['data_dir'])
@@ -571,6 +623,12 @@ def replay(ctx, rec):
         elif contents_diff(a, b):
             ctx.violation('library contents depend on how the library is located / on the process it is loaded in', inp,
                           'the contents loaded by name from a neutral directory', contents_diff(a, b))
+    elif 'stated' in inp and 'library' in inp:
+        import pgradd
+        pkg_data = os.path.join(os.path.dirname(pgradd.__file__), 'data')
+        specs = way_specs(ctx, pkg_data, libs.lib_names(), 'replay')
+        dumps = run_ways(ctx, specs, [inp['library']], ['name'])
+        stated_vs_loaded(ctx, [inp['library']], pkg_data, dumps)
     elif 'group' in inp and 'library' in inp:
         import warnings
         lib = libs.load(inp['library'])
